@@ -55,6 +55,17 @@ CLAIMS['C11'] = dict(
     note=("Annotations are synthetic (introns >= 2 nt, one chromosome, GENCODE-style attributes); GTF text is parsed by the "
           "harness independently to obtain the expected features; cache size is lowered through the module constant."),
     technique="TLA+ definitional spec + TLC validation of recorded observations; TLC-enumerated cache histories replayed", ref='6 C11')
+CLAIMS['C13'] = dict(
+    text=("spec/GvfFormat.tla defines the GVF line of every record kind (1-based POS and position attributes, END untouched, "
+          "symbolic ALT, first-base REF) and its parse; GvfTrace has TLC check, for structured and random records of every kind "
+          "built in memory as the parsers build them, that the text the real code writes is Line(rec), what it reads back is "
+          "Parse(line), and the second-generation text is identical (also circRNA/ciRNA records). spec/GvfPool.tla models GVF "
+          "files, .idx files and the opened pool; TLC checks index-equivalent lookup, pointer = maximal run, stale index rejected "
+          "for all histories in the bound, and recorded histories of real files (every grouping of records over 3 transcripts in "
+          "2 files, indexGVF, edits, re-open) must be behaviours of it with the same pointer table."),
+    note=("Attribute values contain no quote, semicolon, equals sign or tab (as every moPepGen parser emits them); per-transcript "
+          "record sets are read through the pool's pointers (pointer.load), not through the variant-series conversion."),
+    technique="TLA+ format definition + state machine; TLC validation of recorded round trips and file histories", ref='6 C13')
 PENDING = "not claimed in this revision: check not built yet (work in progress, see DESIGN.md section 12)"
 NA = {}
 
